@@ -638,13 +638,30 @@ func CreateState(filename string, reader *files.Reader, fileOffset int, lineNumb
 	}
 }
 
+// a loop state owns its variables, so a copy must not share the map
+func (ls LoopState) Copy() LoopState {
+	return LoopState{
+		loopId:              ls.loopId,
+		callLevel:           ls.callLevel,
+		iterationStep:       ls.iterationStep,
+		name:                ls.name,
+		loopMatchIndexStart: ls.loopMatchIndexStart,
+		variables:           ls.variables.Copy().Hashmap(),
+	}
+}
+
 func (es *SearchEngineState) Copy() *SearchEngineState {
+	// bindings are added in place, so checkpoints need their own maps
+	loopStack := ds.NewStack[LoopState]()
+	for i := 0; i < int(es.loopStack.Size()); i++ {
+		loopStack.Push(es.loopStack.Index(i).Copy())
+	}
 	return &SearchEngineState{
-		loopStack:         es.loopStack.Copy(),
+		loopStack:         loopStack,
 		backtrack:         es.backtrack.Copy(),
 		variableStack:     es.variableStack.Copy(),
 		callStack:         es.callStack.Copy(),
-		environment:       es.environment,
+		environment:       es.environment.Copy().Hashmap(),
 		status:            es.status,
 		programCounter:    es.programCounter,
 		currentFileOffset: es.currentFileOffset,
